@@ -179,4 +179,124 @@ theorem addAtCore_inv (d : Deque) (x index : Nat) (m : Mem) (hi : d.Inv) (hidx :
     have := congrArg List.length a3
     simpa [List.length_insertIdx, Nat.le_of_lt hidx] using this
 
+/-- an index outside `[0, size)` is rejected and nothing at all changes -/
+theorem addAt_inert (d : Deque) (x index : Nat) (m : Mem) (h : index ≥ d.size) :
+    d.addAt x index m = (.errOutOfRange, d, m) := by unfold addAt; rw [if_pos h]
+
+open CC.Spec in
+/-- **`cc_deque_add_at`, partial (finding D3).**  For every layout and every index outside the front-half
+range `1 ≤ index ∧ index + 1 ≤ size / 2`: either the call behaves exactly like `List.insertIdx` on the
+ideal list (same status — `CC_ERR_OUT_OF_RANGE` with nothing changed for `index ≥ size` —, the
+abstraction commutes, invariant kept, ledger balanced, capacity kept or doubled), or it reports
+`CC_ERR_ALLOC` with the whole state unchanged because the deque was full and growth was refused.
+
+The unrestricted statement (without `hD3`) is false: `addAt_front_half_wrong`. -/
+theorem addAt_refines_partial (d : Deque) (x index : Nat) (m : Mem) (hi : d.Inv)
+    (hD3 : ¬ (1 ≤ index ∧ index + 1 ≤ d.size / 2)) :
+    ((d.addAt x index m).1 = (DequeSpec.addAt d.abs x index).1 ∧
+      (d.addAt x index m).2.1.abs = (DequeSpec.addAt d.abs x index).2 ∧
+      (d.addAt x index m).2.1.Inv ∧ memSame (d.addAt x index m).2.2 m ∧
+      (d.addAt x index m).2.1.cap = (if index < d.size ∧ d.size = d.cap then 2 * d.cap else d.cap)) ∨
+    ((d.addAt x index m).1 = .errAlloc ∧ (d.addAt x index m).2.1 = d ∧ memSame (d.addAt x index m).2.2 m ∧
+      index < d.size ∧ d.size = d.cap ∧ (m.alloc.1 = false ∨ d.cap = Gen.MAX_POW_TWO)) := by
+  have hsz := hi.2.2.2.2.2
+  have hpos := Inv.cap_pos hi
+  by_cases h0 : index ≥ d.size
+  · left
+    rw [addAt_inert d x index m h0]
+    unfold DequeSpec.addAt
+    rw [if_neg (by simp; omega)]
+    exact ⟨rfl, rfl, hi, memSame_refl m, by rw [if_neg (by omega)]⟩
+  have hidx : index < d.size := by omega
+  have hspec : DequeSpec.addAt d.abs x index = (.ok, d.abs.insertIdx index x) := by
+    unfold DequeSpec.addAt; rw [if_pos (by simpa using hidx)]
+  unfold addAt
+  rw [if_neg h0, hspec]
+  by_cases hfull : d.cap = d.size
+  · rw [if_pos hfull]
+    by_cases he : (d.expandCapacity m).1 = .ok
+    · obtain ⟨e1, e2, e3, e4, e5, e6, e7⟩ := expandCapacity_ok d m hi he
+      have hne : ((d.expandCapacity m).1 != Stat.ok) = false := by simp [he]
+      simp only [hne, Bool.false_eq_true, if_false]
+      obtain ⟨a1, a2, a3, a4, a5⟩ := addAtCore_spec (d.expandCapacity m).2.1 x index (d.expandCapacity m).2.2 e1
+        (by rw [e3]; exact hidx) (by rw [e3, e4]; omega) (by rw [e3]; exact hD3)
+      left
+      exact ⟨a1, by rw [a3, e2], a2, by rw [a4]; exact e5, by rw [a5, e4, if_pos ⟨hidx, hfull.symm⟩]⟩
+    · obtain ⟨f1, f2, f3, f4⟩ := expandCapacity_fail d m he
+      have hne : ((d.expandCapacity m).1 != Stat.ok) = true := by simp [he]
+      simp only [hne, if_true]
+      right
+      refine ⟨(by first | rfl | trivial), f1, f2, hidx, hfull.symm, ?_⟩
+      rcases f3 with f3 | f3
+      · exact Or.inl (f4 f3)
+      · right
+        by_cases hc : d.cap = Gen.MAX_POW_TWO
+        · exact hc
+        · cases ha : m.alloc.1
+          · rw [expandCapacity_refused d m hc ha] at f3; simp at f3
+          · rw [expandCapacity_grow d m hc ha] at f3; simp at f3
+  · rw [if_neg hfull]
+    obtain ⟨a1, a2, a3, a4, a5⟩ := addAtCore_spec d x index m hi hidx (by omega) hD3
+    left
+    exact ⟨a1, a3, a2, by rw [a4]; exact memSame_refl m, by rw [a5, if_neg (by omega)]⟩
+
+/-- `cc_deque_add_at` for **every** index, finding D3's range included: the invariant is preserved, the
+ledger stays balanced, no access is out of bounds; on `CC_OK` there is exactly one element more and the
+capacity is kept or doubled; on any error the whole state is unchanged -/
+theorem addAt_inv (d : Deque) (x index : Nat) (m : Mem) (hi : d.Inv) :
+    (d.addAt x index m).2.1.Inv ∧ memSame (d.addAt x index m).2.2 m ∧
+    ((d.addAt x index m).1 = .ok → (d.addAt x index m).2.1.size = d.size + 1 ∧ index < d.size ∧
+      (d.addAt x index m).2.1.cap = (if d.size = d.cap then 2 * d.cap else d.cap)) ∧
+    ((d.addAt x index m).1 ≠ .ok → (d.addAt x index m).2.1 = d ∧
+      ((d.addAt x index m).1 = .errOutOfRange ∧ index ≥ d.size ∨
+       (d.addAt x index m).1 = .errAlloc ∧ index < d.size ∧ d.size = d.cap)) := by
+  have hsz := hi.2.2.2.2.2
+  have hpos := Inv.cap_pos hi
+  by_cases h0 : index ≥ d.size
+  · rw [addAt_inert d x index m h0]
+    exact ⟨hi, memSame_refl m, fun h => by simp at h, fun _ => ⟨rfl, Or.inl ⟨rfl, h0⟩⟩⟩
+  have hidx : index < d.size := by omega
+  unfold addAt
+  rw [if_neg h0]
+  by_cases hfull : d.cap = d.size
+  · rw [if_pos hfull]
+    by_cases he : (d.expandCapacity m).1 = .ok
+    · obtain ⟨e1, e2, e3, e4, e5, e6, e7⟩ := expandCapacity_ok d m hi he
+      have hne : ((d.expandCapacity m).1 != Stat.ok) = false := by simp [he]
+      simp only [hne, Bool.false_eq_true, if_false]
+      obtain ⟨a1, a2, a3, a4, a5⟩ := addAtCore_inv (d.expandCapacity m).2.1 x index (d.expandCapacity m).2.2 e1
+        (by rw [e3]; exact hidx) (by rw [e3, e4]; omega)
+      refine ⟨a2, by rw [a4]; exact e5, fun _ => ⟨by rw [a3, e3], hidx, by rw [a5, e4, if_pos hfull.symm]⟩, ?_⟩
+      intro h; exact absurd a1 h
+    · obtain ⟨f1, f2, f3, f4⟩ := expandCapacity_fail d m he
+      have hne : ((d.expandCapacity m).1 != Stat.ok) = true := by simp [he]
+      simp only [hne, if_true]
+      refine ⟨by rw [f1]; exact hi, f2, fun h => by simp at h, fun _ => ⟨f1, Or.inr ⟨(by first | rfl | trivial), hidx, hfull.symm⟩⟩⟩
+  · rw [if_neg hfull]
+    obtain ⟨a1, a2, a3, a4, a5⟩ := addAtCore_inv d x index m hi hidx (by omega)
+    refine ⟨a2, by rw [a4]; exact memSame_refl m, fun _ => ⟨a3, hidx, by rw [a5, if_neg (by omega)]⟩, ?_⟩
+    intro h; exact absurd a1 h
+
+/-! ## finding D3: the hypothesis of `addAt_refines_partial` cannot be dropped -/
+
+/-- a contiguous deque starting at slot 0 (`f == 0` sends it down the "wrapped" block): capacity 8,
+elements `[1,2,3,4]`, insert 9 at index 1 -/
+def d3Wrapped : Deque := { size := 4, cap := 8, first := 0, last := 4, buf := [1, 2, 3, 4, 0, 0, 0, 0] }
+/-- a contiguous deque starting at slot 2: capacity 8, elements `[1,2,3,4]`, insert 9 at index 1 -/
+def d3Unwrapped : Deque := { size := 4, cap := 8, first := 2, last := 6, buf := [0, 0, 1, 2, 3, 4, 0, 0] }
+
+/-- **Negation theorem for finding D3.**  Two states that satisfy the invariant, index 1 of 4 elements
+(so `1 ≤ index ∧ index + 1 ≤ size / 2`): the model — which is the C code, statement by statement —
+returns `CC_OK` but its content is not `List.insertIdx`: in the first layout the new element lands
+after position 1 (`[1,2,9,3,4]`), in the second the element at position 1 is overwritten and its
+predecessor duplicated (`[1,1,9,3,4]`, the 2 is lost). -/
+theorem addAt_front_half_wrong :
+    d3Wrapped.Inv ∧ d3Unwrapped.Inv ∧
+    (d3Wrapped.addAt 9 1 {}).1 = .ok ∧ (d3Unwrapped.addAt 9 1 {}).1 = .ok ∧
+    (d3Wrapped.addAt 9 1 {}).2.1.abs = [1, 2, 9, 3, 4] ∧
+    (d3Unwrapped.addAt 9 1 {}).2.1.abs = [1, 1, 9, 3, 4] ∧
+    d3Wrapped.abs.insertIdx 1 9 = [1, 9, 2, 3, 4] ∧ d3Unwrapped.abs.insertIdx 1 9 = [1, 9, 2, 3, 4] ∧
+    (d3Wrapped.addAt 9 1 {}).2.1.abs ≠ d3Wrapped.abs.insertIdx 1 9 ∧
+    (d3Unwrapped.addAt 9 1 {}).2.1.abs ≠ d3Unwrapped.abs.insertIdx 1 9 := by decide
+
 end CC.Deque
